@@ -39,6 +39,13 @@ CLAIMED = {
             "shift equivariance for content away from the border; stack = each frame alone (as a 1-frame stack; as a 2-D image it is a recorded "
             "finding for thresholds); quad-cell mirror antisymmetry; correlation centroid = array centre + displacement for padding 2 "
             "(non-square frames included) and for a single pixel at padding 1; sizes 2x2..4x4, stacks of 2", "larger frames outside (sort forks as n!)."),
+    "C16": ("5 C16", "binImgs = exact n x n block sums and total flux for symbolic images and stacks (shapes up to 6x6 quick / 8x8 thorough); "
+            "azimuthal_average: constant -> constant, every ring value within [min,max]; encircled_energy on symbolic non-negative images: curve "
+            "starts at 0, never decreases, never exceeds 1, reported diameter = grid point closest to the requested (symbolic) fraction, for the "
+            "default and for pixel-centred / off-centre centres; zoom_rbs under the interpolation contract of RectBivariateSpline: unchanged size "
+            "returns the input, passes through the old samples, complex = real + i imag with the same orders (orders 1,3,5). NOT claimed: "
+            "polynomial exactness and the interp2d-based zoom (FITPACK / removed from SciPy)",
+            "RectBivariateSpline is an uninterpreted interpolating function (contract stub); radii linspace(...)**1.9 evaluated in floating point."),
     "C17": ("5 C17", "all converters of atmos_conversions and _astronomy: the six inverse pairs (explicit and default wavelength), "
             "composites = compositions, scaling exponents (lambda^(6/5), Cn2^(-3/5), lambda^(-1/5), r0^(-5/3), d^(-1/3)), "
             "single-layer theta0/tau0 = C r0/h with 0.313<C<0.315, axis argument = loop over profiles for rank 1-3 arrays and every "
